@@ -43,9 +43,8 @@ theorem C11_iter (bytes : List UInt8) (hp : (parse bytes).fail = none) (n : Nat)
     (parse (C07.fmtN n (C07.fmtB bytes))).fail = none ∧ C07.fmtN n (C07.fmtB bytes) = C07.fmtB bytes :=
   C07.fmtN_fmtB bytes hp n
 
-/-- non-vacuity: the theorem applies to the formatted bytes of the example tree, e.g. with `n = 5` -/
-example : (parse (flat (format Fmt.exTree))).fail = none →
-    C07.fmtN 5 (C07.fmtB (flat (format Fmt.exTree))) = C07.fmtB (flat (format Fmt.exTree)) :=
-  fun h => (C11_iter _ h 5).2
+/-- non-vacuity: the theorem applies to the formatted bytes of the example tree (which parse: `C07.exText_parses`), e.g. `n = 5` -/
+example : C07.fmtN 5 (C07.fmtB (flat (format Fmt.exTree))) = C07.fmtB (flat (format Fmt.exTree)) :=
+  (C11_iter _ C07.exText_parses 5).2
 
 end Spok.Props.C11
